@@ -4,7 +4,7 @@
 
 package sysloginput
 
-//@ property C19
+//@ property C19 C09
 
 // lastparsed: ghost - what the underlying parser returned (it has counted the line as passed iff this is not nil: C09)
 //@ ghost var lastparsed *base.LogRecord
@@ -21,3 +21,7 @@ package sysloginput
 //@   modifies everything
 //@   ensures[parsed-record-is-returned-or-counted-as-dropped] lastparsed != nil && result == nil ==> ncalls("base.LogInputCounterSet.CountRecordDrop") == old(ncalls("base.LogInputCounterSet.CountRecordDrop")) + 1
 //@   ensures[rejected-line-stays-rejected] lastparsed == nil ==> result == nil
+// C09 "every message handed to the parser is counted exactly once ... as passed or dropped": a line the underlying parser has
+// accepted has been counted by it as passed; the input counter must not count that line a second time, whatever the
+// extraction transforms decide (together with the clause above: the drop needs a counter of its own)
+//@   ensures[an-accepted-line-is-not-counted-a-second-time-by-the-input-counter] lastparsed != nil ==> ncalls("base.LogInputCounterSet.CountRecordDrop") == old(ncalls("base.LogInputCounterSet.CountRecordDrop")) && ncalls("base.LogInputCounterSet.CountRecordPass") == old(ncalls("base.LogInputCounterSet.CountRecordPass"))
